@@ -91,3 +91,77 @@ example : select (List.replicate 2 true ++ [false, false] ++ List.replicate 18 t
     evicted (List.replicate 2 true ++ [false, false] ++ List.replicate 18 true ++ [false]) = [2, 3] := by decide
 
 end Goat.C08P
+
+namespace Goat.C08P
+open Goat Goat.App Goat.Prepare
+
+/-! ### the walk with the removal outcomes (`walkV`: what the stream compares with the real handler) -/
+
+/-- the selected transactions do not depend on what was evicted so far -/
+theorem walk_fst_indep : ∀ (vs : List Bool) (i : Nat) (sel ev ev' : List Nat),
+    (walk vs i sel ev).1 = (walk vs i sel ev').1
+  | [], _, _, _, _ => rfl
+  | false :: vs, i, sel, ev, ev' => by simp only [walk]; exact walk_fst_indep vs (i + 1) sel _ _
+  | true :: vs, i, sel, ev, ev' => by
+    simp only [walk]
+    split
+    · rfl
+    · exact walk_fst_indep vs (i + 1) (i :: sel) ev ev'
+
+/-- **when the handler answers, it selected exactly what the pass/fail pattern alone determines** (so every theorem about
+    `select` — the cap, "min(15, passing)", acceptance by ProcessProposal — is about the real handler's answer) -/
+theorem walkV_ok_sel : ∀ (vs : List Verdict) (i : Nat) (sel ev : List Nat) (r : List Nat × List Nat × Nat),
+    walkV vs i sel ev = .ok r → r.1 = (walk (vs.map Verdict.isPass) i sel ev).1
+  | [], i, sel, ev, r, h => by
+    simp only [walkV, Outcome.ok.injEq] at h; subst h; rfl
+  | .evict :: vs, i, sel, ev, r, h => by
+    simp only [walkV] at h
+    have := walkV_ok_sel vs (i + 1) sel (i :: ev) r h
+    simpa [walk, Verdict.isPass] using this
+  | .notFound :: vs, i, sel, ev, r, h => by
+    simp only [walkV] at h
+    have := walkV_ok_sel vs (i + 1) sel ev r h
+    rw [this]
+    simp only [List.map_cons, Verdict.isPass, walk]
+    exact walk_fst_indep _ _ _ _ _
+  | .removeErr :: vs, i, sel, ev, r, h => by simp [walkV] at h
+  | .pass :: vs, i, sel, ev, r, h => by
+    simp only [walkV] at h
+    simp only [List.map_cons, Verdict.isPass, walk]
+    split at h
+    · rename_i hfull
+      simp only [Outcome.ok.injEq] at h; subst h
+      rw [if_pos hfull]
+    · rename_i hnot
+      rw [if_neg hnot]
+      exact walkV_ok_sel vs (i + 1) (i :: sel) ev r h
+
+/-- the handler's answer, from an empty start: at most 15 selected, exactly min(15, passing) -/
+theorem walkV_ok_length (vs : List Verdict) (r : List Nat × List Nat × Nat) (h : walkV vs 0 [] [] = .ok r) :
+    r.1.length = min 15 ((vs.map Verdict.isPass).filter id).length := by
+  rw [walkV_ok_sel vs 0 [] [] r h]
+  exact select_length _
+
+/-- **the handler fails only on a removal error**: with a mempool whose removals succeed (or answer "not found") the
+    walk always produces a proposal -/
+theorem walkV_ok_of_no_removeErr : ∀ (vs : List Verdict) (i : Nat) (sel ev : List Nat),
+    (∀ v ∈ vs, v ≠ .removeErr) → ∃ r, walkV vs i sel ev = .ok r
+  | [], i, sel, ev, _ => ⟨_, rfl⟩
+  | .evict :: vs, i, sel, ev, h => by
+    simp only [walkV]; exact walkV_ok_of_no_removeErr vs _ _ _ (fun v hv => h v (by simp [hv]))
+  | .notFound :: vs, i, sel, ev, h => by
+    simp only [walkV]; exact walkV_ok_of_no_removeErr vs _ _ _ (fun v hv => h v (by simp [hv]))
+  | .removeErr :: vs, i, sel, ev, h => absurd rfl (h .removeErr (by simp))
+  | .pass :: vs, i, sel, ev, h => by
+    simp only [walkV]
+    split
+    · exact ⟨_, rfl⟩
+    · exact walkV_ok_of_no_removeErr vs _ _ _ (fun v hv => h v (by simp [hv]))
+
+/-- a removal error met after the proposal is full is never seen: the walk has stopped -/
+example : walkV (List.replicate 15 .pass ++ [.removeErr]) 0 [] [] =
+    .ok ([0, 1, 2, 3, 4, 5, 6, 7, 8, 9, 10, 11, 12, 13, 14], [], 15) := by decide
+example : walkV ([.pass, .evict, .notFound, .pass, .removeErr, .pass]) 0 [] [] = .err "mempool-remove" := by decide
+example : walkV ([.pass, .evict, .notFound, .pass]) 0 [] [] = .ok ([0, 3], [1], 4) := by decide
+
+end Goat.C08P
